@@ -2,30 +2,37 @@
 //!
 //! E2 (stateright BFS to closure) over histories of the checked mutations of the REAL `CoreDocument`
 //! (`insert_method`, `remove_method_and_scope`, `attach_method_relationship`, `detach_method_relationship`,
-//! `insert_service`, `remove_service`) on a small universe of ids (2 DIDs x 3 fragments), from an empty document,
-//! a `DocumentBuilder` document and deserialised documents (one with a dangling foreign reference).
+//! `insert_service`, `remove_service`) on a small universe of ids (3 DIDs x 4 fragments, chosen so that one DID is a
+//! prefix of another, one fragment a prefix of another, two fragments equal up to case, one fragment begins with "did"),
+//! from an empty document, a `DocumentBuilder` document and deserialised documents (one with a dangling foreign
+//! reference); plus the GATE SWEEP: every document of a product alphabet (each id absent / general / twice general /
+//! referenced / embedded / embedded and referenced, per relationship; every subset of services) offered to
+//! `CoreDocument::from_json` and to `DocumentBuilder::build`, every accepted one judged and expanded by every operation
+//! sequence up to a small depth.
 //!
 //! State = the real document; fingerprint = its exact canonical JSON (entry order included); the op history
-//! travels in the state and is excluded from Hash/Eq. On EVERY transition:
+//! travels in the state and is excluded from Hash/Eq. On EVERY transition (and on every accepted start document):
 //!   (i)   no two methods (general or embedded) with one id,
 //!   (ii)  no relationship reference with the id of an embedded method,
 //!   (iii) no service id equal to a method id,
 //!   (iv)  `from_json(to_json(doc)) == doc`,
 //!   (v)   a refused operation (`Err`/`None`/`Ok(false)`) left the canonical JSON unchanged,
-//!   (vi)  result flag and resulting entry sets agree with an abstract set-of-entries model,
+//!   (vi)  result flag and resulting entry sets agree with an abstract set-of-entries model (the error of a refusal is
+//!         compared only where the documentation names it),
 //!   (vii) every query {full id, "#frag", "frag"} x scope {None, each of the six} of `resolve_method`,
-//!         `resolve_method_mut`, `resolve_service`, and `methods(scope)` return exactly the entry an exact
-//!         first-match model (documented iteration orders only) predicts,
+//!         `resolve_method_mut`, `resolve_service` returns exactly the entry an exact first-match model (documented
+//!         iteration orders only) predicts, and `methods(scope)` returns the predicted entries (as a multiset: no order
+//!         is promised); evaluated once per distinct document,
 //!   (viii) the same operation applied to the document as re-read from its JSON gives the same result and document.
 //! A violating successor is reported and NOT expanded (the search continues everywhere else).
 
-use identity_core::common::{Object, Url};
+use identity_core::common::Object;
 use identity_core::convert::{FromJson, ToJson};
 use identity_did::{CoreDID, DIDUrl, DID};
 use identity_document::document::CoreDocument;
 use identity_document::service::Service;
 use identity_document::Error as DocError;
-use identity_verification::{MethodData, MethodRef, MethodRelationship, MethodScope, MethodType, VerificationMethod};
+use identity_verification::{CustomMethodData, MethodData, MethodRef, MethodRelationship, MethodScope, MethodType, VerificationMethod};
 use once_cell::sync::Lazy;
 use serde::{Deserialize, Serialize};
 use std::collections::{BTreeMap, BTreeSet};
@@ -34,40 +41,111 @@ use std::sync::atomic::{AtomicUsize, Ordering};
 use std::sync::{Arc, Mutex};
 use vx::sr::Collector;
 use vx::stateright::{Model, Property};
+use serde_json::Value;
+use vx::rayon::prelude::*;
 use vx::{guard, json, Ctx, Level};
 
 // ------------------------------------------------------------------ universe
-const DIDS: [&str; 2] = ["did:ex:a", "did:ex:b"];
-const FRAGS: [&str; 3] = ["k1", "k2", "s1"];
-/// Id code = did * 3 + fragment: a#k1=0 a#k2=1 a#s1=2 b#k1=3 b#k2=4 b#s1=5.
-const NID: u8 = 6;
+/// `did:ex:ab` has `did:ex:a` as a proper prefix (and another length): a query for an id under one of the two must
+/// never be answered with an entry under the other.
+const DIDS: [&str; 3] = ["did:ex:a", "did:ex:b", "did:ex:ab"];
+/// k1 / k10: one fragment a proper prefix of the other; k1 / K1: equal up to case; did-k: a fragment that begins with
+/// the letters of the DID scheme (as "didcomm" does).
+const FRAGS: [&str; 4] = ["k1", "k10", "K1", "did-k"];
+/// Fragment code of the fragment that begins with "did".
+const F_DID: u8 = 3;
+/// Id codes 0..9 = did * 3 + fragment (fragments 0..3): a#k1=0 a#k10=1 a#K1=2 b#k1=3 b#k10=4 b#K1=5 ab#k1=6 ab#k10=7
+/// ab#K1=8; then a#did-k=9, b#did-k=10. (Codes 0..6 are those of earlier replay files.)
+const NID: u8 = 11;
 const A_K1: u8 = 0;
 const A_K2: u8 = 1;
+/// the fragment used for services only
 const A_S1: u8 = 2;
 const B_K1: u8 = 3;
 const B_K2: u8 = 4;
+const AB_K1: u8 = 6;
+const A_DID: u8 = 9;
 const UNKNOWN: u8 = 255;
 
-fn id_str(id: u8) -> String {
-  format!("{}#{}", DIDS[(id / 3) as usize], FRAGS[(id % 3) as usize])
-}
-fn frag_of(id: u8) -> u8 {
-  id % 3
-}
-/// Query code: 0..6 = full id, 6..9 = "#frag", 9..12 = "frag" (12 in all).
-static QUERIES: Lazy<Vec<String>> = Lazy::new(|| {
-  let mut v: Vec<String> = (0..NID).map(id_str).collect();
-  v.extend(FRAGS.iter().map(|f| format!("#{f}")));
-  v.extend(FRAGS.iter().map(|f| f.to_string()));
-  v
-});
-fn query_form(q: u8) -> &'static str {
-  match q {
-    0..=5 => "full-id",
-    // "#frag" and "frag" are the same query class: one defect, one key
-    _ => "fragment-only",
+fn did_of(id: u8) -> u8 {
+  if id < 9 {
+    id / 3
+  } else {
+    id - 9
   }
 }
+fn frag_of(id: u8) -> u8 {
+  if id < 9 {
+    id % 3
+  } else {
+    F_DID
+  }
+}
+fn id_str(id: u8) -> String {
+  format!("{}#{}", DIDS[did_of(id) as usize], FRAGS[frag_of(id) as usize])
+}
+/// A resolution query: a full id, "#fragment", or the bare fragment.
+#[derive(Clone, Copy, PartialEq, Eq, Debug)]
+enum Q {
+  Full(u8),
+  Hash(u8),
+  Bare(u8),
+}
+/// Query codes (the first twelve are those of earlier replay files): 0..6 full ids 0..6, 6..9 "#frag" and 9..12 "frag"
+/// of fragments 0..3, 12..15 full ids 6..9, 15..17 full ids 9..11, 17 "#did-k", 18 "did-k".
+static QTAB: Lazy<Vec<Q>> = Lazy::new(|| {
+  let mut v: Vec<Q> = (0..6).map(Q::Full).collect();
+  v.extend((0..3).map(Q::Hash));
+  v.extend((0..3).map(Q::Bare));
+  v.extend((6..NID).map(Q::Full));
+  v.push(Q::Hash(F_DID));
+  v.push(Q::Bare(F_DID));
+  v
+});
+const NQ: u8 = 19;
+static QUERIES: Lazy<Vec<String>> = Lazy::new(|| {
+  QTAB
+    .iter()
+    .map(|q| match q {
+      Q::Full(id) => id_str(*id),
+      Q::Hash(f) => format!("#{}", FRAGS[*f as usize]),
+      Q::Bare(f) => FRAGS[*f as usize].to_string(),
+    })
+    .collect()
+});
+/// The id a full-id query names; None for the fragment forms.
+fn q_id(q: u8) -> Option<u8> {
+  match QTAB[q as usize] {
+    Q::Full(id) => Some(id),
+    _ => None,
+  }
+}
+/// The fragment of a fragment-only query.
+fn q_frag(q: u8) -> u8 {
+  match QTAB[q as usize] {
+    Q::Hash(f) | Q::Bare(f) => f,
+    Q::Full(id) => frag_of(id),
+  }
+}
+fn q_code(q: Q) -> u8 {
+  QTAB.iter().position(|x| *x == q).expect("query in the table") as u8
+}
+fn q_of_id(id: u8) -> u8 {
+  q_code(Q::Full(id))
+}
+fn query_form(q: u8) -> &'static str {
+  match q_id(q) {
+    Some(_) => "full-id",
+    // "#frag" and "frag" are the same query class: one defect, one key
+    None => "fragment-only",
+  }
+}
+/// The bare-fragment query whose fragment begins with "did".
+fn is_bare_did_fragment(q: u8) -> bool {
+  QTAB[q as usize] == Q::Bare(F_DID)
+}
+/// One defect, one key: a bare fragment that begins with "did" read as if it were a DID, so that it matches no entry.
+const KEY_BARE_DID: &str = "DIDUrlQuery|bare-fragment-beginning-with-did|matches-no-entry";
 static URLS: Lazy<Vec<DIDUrl>> = Lazy::new(|| (0..NID).map(|i| DIDUrl::parse(id_str(i)).expect("universe id")).collect());
 
 fn id_of(u: &DIDUrl) -> u8 {
@@ -77,7 +155,7 @@ fn id_of(u: &DIDUrl) -> u8 {
   let d = DIDS.iter().position(|d| *d == u.did().as_str());
   let f = u.fragment().and_then(|f| FRAGS.iter().position(|x| *x == f));
   match (d, f) {
-    (Some(d), Some(f)) => (d * 3 + f) as u8,
+    (Some(d), Some(f)) => (0..NID).find(|i| did_of(*i) as usize == d && frag_of(*i) as usize == f).unwrap_or(UNKNOWN),
     _ => UNKNOWN,
   }
 }
@@ -112,46 +190,38 @@ fn scope_code(s: MethodScope) -> u8 {
 }
 
 // ------------------------------------------------------------------ fixtures: one body per (id, variant)
+/// Bodies of the ids under `did:ex:a` / `did:ex:b`: 0 = multibase key, 1 = JWK key of another type, 2 = body 0 plus a
+/// custom property. Under `did:ex:ab` the other two shapes of key material: 0 = base58 key, 1 = custom method data
+/// (an object-valued member), 2 = body 0 plus a custom property.
 fn make_method(id: u8, variant: u8) -> VerificationMethod {
   let url = URLS[id as usize].clone();
   let controller: CoreDID = url.did().clone();
-  match variant {
-    0 => VerificationMethod::builder(Object::new())
-      .id(url)
-      .controller(controller)
-      .type_(MethodType::ED25519_VERIFICATION_KEY_2018)
-      .data(MethodData::PublicKeyMultibase(format!("z6Mkfixture{id}")))
-      .build()
-      .expect("fixture method body 0"),
-    // same id, different body: JWK material and another type
-    1 => VerificationMethod::builder(Object::new())
-      .id(url)
-      .controller(controller)
-      .type_(MethodType::JSON_WEB_KEY_2020)
-      .data(MethodData::PublicKeyJwk(vx::fx::EdKey::new(10 + id).public))
-      .build()
-      .expect("fixture method body 1"),
-    // same id, body 0 plus one custom property (VerificationMethod::properties is public API)
-    _ => {
-      let mut props = Object::new();
-      props.insert("note".into(), json!(format!("custom-property-of-{id}")));
-      VerificationMethod::builder(props)
-        .id(url)
-        .controller(controller)
-        .type_(MethodType::ED25519_VERIFICATION_KEY_2018)
-        .data(MethodData::PublicKeyMultibase(format!("z6Mkfixture{id}")))
-        .build()
-        .expect("fixture method body 2")
-    }
+  let third = did_of(id) == 2;
+  let mut props = Object::new();
+  if variant == 2 {
+    // VerificationMethod::properties is public API
+    props.insert("note".into(), json!(format!("custom-property-of-{id}")));
   }
+  let (ty, data) = match (variant, third) {
+    (1, false) => (MethodType::JSON_WEB_KEY_2020, MethodData::PublicKeyJwk(vx::fx::EdKey::new(10 + id).public)),
+    (1, true) => (
+      MethodType::custom("EcdsaSecp256k1RecoveryMethod2020"),
+      MethodData::new_custom(CustomMethodData { name: "blockchainAccountId".into(), data: json!({"chain": "eip155:1", "account": format!("0xfixture{id}")}) }),
+    ),
+    (_, false) => (MethodType::ED25519_VERIFICATION_KEY_2018, MethodData::PublicKeyMultibase(format!("z6Mkfixture{id}"))),
+    (_, true) => (MethodType::ED25519_VERIFICATION_KEY_2018, MethodData::new_base58(format!("fixture-key-{id}").as_bytes())),
+  };
+  VerificationMethod::builder(props).id(url).controller(controller).type_(ty).data(data).build().expect("fixture method body")
 }
+/// One fixed body per service id, its shape chosen by the fragment: k1 = one type, one endpoint URL; k2 = endpoint map;
+/// s1 = two types, a set of two endpoint URLs and a custom property.
 fn make_service(id: u8) -> Service {
-  Service::builder(Object::new())
-    .id(URLS[id as usize].clone())
-    .type_("LinkedDomains")
-    .service_endpoint(Url::parse(format!("https://example.com/{id}/")).expect("url"))
-    .build()
-    .expect("fixture service")
+  let js = match frag_of(id) {
+    0 => json!({"id": id_str(id), "type": "LinkedDomains", "serviceEndpoint": format!("https://example.com/{id}/")}),
+    1 => json!({"id": id_str(id), "type": "LinkedDomains", "serviceEndpoint": {"origins": [format!("https://example.com/{id}/a"), format!("https://example.com/{id}/b")], "other": [format!("https://example.org/{id}/")]}}),
+    _ => json!({"id": id_str(id), "type": ["LinkedDomains", "DIDCommMessaging"], "serviceEndpoint": [format!("https://example.com/{id}/"), format!("wss://example.com/{id}/ws")], "note": {"k": [1, null]}}),
+  };
+  Service::from_json(&js.to_string()).expect("fixture service")
 }
 const NBODY: u8 = 3;
 static METHODS: Lazy<Vec<[VerificationMethod; 3]>> = Lazy::new(|| (0..NID).map(|i| [make_method(i, 0), make_method(i, 1), make_method(i, 2)]).collect());
@@ -219,11 +289,46 @@ impl Op {
   }
 }
 
+/// One entry of a relationship set of a gate-sweep document: an embedded method (id, body) or a reference (id).
+#[derive(Serialize, Deserialize, Debug, Clone, PartialEq)]
+enum SpecEnt {
+  Embed(u8, u8),
+  Refer(u8),
+}
+/// A document of the gate sweep, entry by entry (fixture bodies): it may or may not satisfy the id constraints.
+#[derive(Serialize, Deserialize, Debug, Clone, PartialEq, Default)]
+struct Spec {
+  /// verificationMethod: (id, body)
+  general: Vec<(u8, u8)>,
+  /// authentication, assertionMethod, keyAgreement, capabilityDelegation, capabilityInvocation
+  rels: [Vec<SpecEnt>; 5],
+  /// service ids
+  services: Vec<u8>,
+}
+
 #[derive(Serialize, Deserialize, Debug, Clone, PartialEq)]
 enum Case {
   /// Start document number `init` (see `init_doc`), then `ops` in order; the oracle runs at the start document
   /// and after every operation.
   History { init: u8, ops: Vec<Op> },
+  /// The document `spec` offered to the constructor gate: `CoreDocument::from_json` of its JSON (`builder` = false) or
+  /// `DocumentBuilder::build` (`builder` = true). If the library accepts it: the state oracles, then `ops` as above.
+  Gate { spec: Spec, builder: bool, ops: Vec<Op> },
+}
+
+/// Where a history starts.
+#[derive(Clone, Debug)]
+enum Start {
+  Named(u8),
+  Spec(Arc<Spec>, bool),
+}
+impl Start {
+  fn case(&self, ops: &[Op]) -> Case {
+    match self {
+      Start::Named(init) => Case::History { init: *init, ops: ops.to_vec() },
+      Start::Spec(spec, builder) => Case::Gate { spec: (**spec).clone(), builder: *builder, ops: ops.to_vec() },
+    }
+  }
 }
 
 // ------------------------------------------------------------------ start documents
@@ -272,6 +377,94 @@ fn init_doc(init: u8) -> Result<CoreDocument, String> {
   match r {
     Ok(r) => r,
     Err(p) => Err(format!("panic: {}", p.msg)),
+  }
+}
+
+const REL_KEYS: [&str; 5] = ["authentication", "assertionMethod", "keyAgreement", "capabilityDelegation", "capabilityInvocation"];
+fn spec_json(s: &Spec) -> String {
+  let m = |id: u8, v: u8| serde_json::to_value(&METHODS[id as usize][v as usize]).expect("fixture json");
+  let mut o = serde_json::Map::new();
+  o.insert("id".into(), json!(DIDS[0]));
+  if !s.general.is_empty() {
+    o.insert("verificationMethod".into(), Value::Array(s.general.iter().map(|(i, v)| m(*i, *v)).collect()));
+  }
+  for (r, l) in s.rels.iter().enumerate() {
+    if !l.is_empty() {
+      let entries = l.iter().map(|e| match e {
+        SpecEnt::Embed(i, v) => m(*i, *v),
+        SpecEnt::Refer(i) => json!(id_str(*i)),
+      });
+      o.insert(REL_KEYS[r].into(), Value::Array(entries.collect()));
+    }
+  }
+  if !s.services.is_empty() {
+    o.insert("service".into(), Value::Array(s.services.iter().map(|i| serde_json::to_value(&SERVICES[*i as usize]).expect("fixture json")).collect()));
+  }
+  Value::Object(o).to_string()
+}
+fn spec_build(s: &Spec) -> Result<CoreDocument, DocError> {
+  let mut b = CoreDocument::builder(Object::new()).id(CoreDID::parse(DIDS[0]).expect("universe did"));
+  for (i, v) in &s.general {
+    b = b.verification_method(METHODS[*i as usize][*v as usize].clone());
+  }
+  for (r, l) in s.rels.iter().enumerate() {
+    for e in l {
+      let mr = match e {
+        SpecEnt::Embed(i, v) => MethodRef::Embed(METHODS[*i as usize][*v as usize].clone()),
+        SpecEnt::Refer(i) => MethodRef::Refer(URLS[*i as usize].clone()),
+      };
+      b = match r {
+        0 => b.authentication(mr),
+        1 => b.assertion_method(mr),
+        2 => b.key_agreement(mr),
+        3 => b.capability_delegation(mr),
+        _ => b.capability_invocation(mr),
+      };
+    }
+  }
+  for i in &s.services {
+    b = b.service(SERVICES[*i as usize].clone());
+  }
+  b.build()
+}
+/// Model-side class of a gate-sweep document (histogram only: the judgement is made on what the library accepted).
+fn spec_class(s: &Spec) -> &'static str {
+  let mut methods: Vec<u8> = s.general.iter().map(|(i, _)| *i).collect();
+  let mut embedded = Vec::new();
+  let mut refs = Vec::new();
+  let mut twice_in_one_set = false;
+  for l in &s.rels {
+    let mut in_set = BTreeSet::new();
+    for e in l {
+      let i = match e {
+        SpecEnt::Embed(i, _) => {
+          methods.push(*i);
+          embedded.push(*i);
+          *i
+        }
+        SpecEnt::Refer(i) => {
+          refs.push(*i);
+          *i
+        }
+      };
+      twice_in_one_set |= !in_set.insert(i);
+    }
+  }
+  let distinct: BTreeSet<u8> = methods.iter().cloned().collect();
+  if distinct.len() != methods.len() {
+    "two methods with one id"
+  } else if refs.iter().any(|r| embedded.contains(r)) {
+    "reference aliases an embedded method"
+  } else if s.services.iter().any(|x| methods.contains(x)) {
+    "service id equals a method id"
+  } else if twice_in_one_set {
+    "one id twice in one set"
+  } else if s.services.iter().any(|x| refs.contains(x)) {
+    "constraints hold; a service id equals the id of a reference without its method"
+  } else if refs.iter().any(|r| !methods.contains(r)) {
+    "constraints hold; some reference without its method"
+  } else {
+    "constraints hold"
   }
 }
 
@@ -343,6 +536,11 @@ impl Abs {
   fn service(&self, x: u8) -> Option<&Body> {
     self.services.iter().find(|(i, _)| *i == x).map(|(_, b)| b)
   }
+  /// Does a method, a reference or a service with another id carry the fragment of `x`?
+  fn fragment_in_use_by_another_id(&self, x: u8) -> bool {
+    let f = frag_of(x);
+    self.method_ids_with_fragment(f).into_iter().chain(self.service_ids_with_fragment(f)).any(|i| i != x)
+  }
   /// Distinct ids of method entries (general, embedded, references) carrying fragment `f`.
   fn method_ids_with_fragment(&self, f: u8) -> Vec<u8> {
     let mut s = BTreeSet::new();
@@ -362,17 +560,15 @@ impl Abs {
   }
   /// Ids a query may denote: the id itself for a full id, otherwise every id with that fragment.
   fn method_candidates(&self, q: u8) -> Vec<u8> {
-    if q < NID {
-      vec![q]
-    } else {
-      self.method_ids_with_fragment((q - NID) % 3)
+    match q_id(q) {
+      Some(id) => vec![id],
+      None => self.method_ids_with_fragment(q_frag(q)),
     }
   }
   fn service_candidates(&self, q: u8) -> Vec<u8> {
-    if q < NID {
-      vec![q]
-    } else {
-      self.service_ids_with_fragment((q - NID) % 3)
+    match q_id(q) {
+      Some(id) => vec![id],
+      None => self.service_ids_with_fragment(q_frag(q)),
     }
   }
   /// What resolving the definite id `x` yields: scope None = the method with that id wherever it is embedded;
@@ -422,10 +618,9 @@ impl Abs {
   }
   /// Does query `q` (full id: that id; fragment forms: every id with that fragment, whatever its DID) match `id`?
   fn q_matches(q: u8, id: u8) -> bool {
-    if q < NID {
-      id == q
-    } else {
-      id != UNKNOWN && frag_of(id) == (q - NID) % 3
+    match q_id(q) {
+      Some(x) => id == x,
+      None => id != UNKNOWN && frag_of(id) == q_frag(q),
     }
   }
   /// First-match resolution built only from the documented orders: unscoped = the first relationship entry (in the
@@ -468,10 +663,17 @@ impl Abs {
 /// operations and the property statement. More than one pair = the statement leaves the choice open
 /// (fragment query denoting several ids; id held only by a dangling reference).
 struct Pred {
+  /// A flag `Err(*)` stands for a refusal with any error: the documentation names no error for that case.
   allowed: Vec<(String, Abs)>,
   /// Key to report when the real operation was accepted although every allowed outcome is a refusal.
   accept_key: Option<&'static str>,
   ambiguous: bool,
+  /// Why acceptance and refusal are both allowed (recorded in the histogram), if they are.
+  open: Option<&'static str>,
+}
+/// Does the real flag fit an allowed one?
+fn flag_fits(allowed: &str, real: &str) -> bool {
+  allowed == real || (allowed == "Err(*)" && real.starts_with("Err("))
 }
 fn flag_some(scope: u8, b: &Body) -> String {
   format!("Some({},{b:?})", SCOPE_NAMES[scope as usize])
@@ -480,6 +682,8 @@ fn predict(abs: &Abs, op: &Op) -> Pred {
   let same = || abs.clone();
   let mut accept_key = None;
   let mut ambiguous = false;
+  let mut open = None;
+  let any_refusal = || ("Err(*)".to_string(), abs.clone());
   let allowed: Vec<(String, Abs)> = match *op {
     Op::InsertMethod { id, variant, scope } => {
       let add = || {
@@ -499,12 +703,19 @@ fn predict(abs: &Abs, op: &Op) -> Pred {
         // The id is held by a reference whose method is not in the document.
         if scope == 0 {
           // becoming the referenced general-purpose method, or refusing: the statement leaves it open
-          vec![("Ok".to_string(), add()), refuse]
+          open = Some("id held by a reference only");
+          vec![("Ok".to_string(), add()), any_refusal()]
         } else {
-          // embedding it would make the reference alias an embedded method
+          // embedding it would make the reference alias an embedded method (refusal with whatever error)
           accept_key = Some("CoreDocument::insert_method|embedded-scope|accepted-while-a-reference-holds-the-id");
-          vec![refuse]
+          vec![any_refusal()]
         }
+      } else if abs.fragment_in_use_by_another_id(id) {
+        // The id is free, its fragment is carried by an entry under another DID. The documentation of insert_method
+        // and of Error::MethodInsertionError speaks of "a method or service with the same FRAGMENT": refusing is what
+        // the documentation says, accepting is what the id-uniqueness statement needs. Executed, recorded, left open.
+        open = Some("fragment carried by another id");
+        vec![("Ok".to_string(), add()), any_refusal()]
       } else {
         vec![("Ok".to_string(), add())]
       }
@@ -534,6 +745,9 @@ fn predict(abs: &Abs, op: &Op) -> Pred {
       if cands.is_empty() {
         vec![("Err(MethodNotFound)".to_string(), same())]
       } else {
+        // A fragment denoting several ids: the outcome for any one of them, or a refusal (no documentation says that
+        // such a query must be served).
+        let refusal_of_ambiguity = if ambiguous { Some(any_refusal()) } else { None };
         cands
           .into_iter()
           .map(|c| {
@@ -560,6 +774,7 @@ fn predict(abs: &Abs, op: &Op) -> Pred {
               ("Err(MethodNotFound)".to_string(), same())
             }
           })
+          .chain(refusal_of_ambiguity)
           .collect()
       }
     }
@@ -573,7 +788,8 @@ fn predict(abs: &Abs, op: &Op) -> Pred {
       if abs.service(id).is_some() || abs.general(id).is_some() || abs.embedded(id).is_some() {
         vec![refuse]
       } else if abs.referred(id) {
-        vec![("Ok".to_string(), add()), refuse]
+        open = Some("id held by a reference only");
+        vec![("Ok".to_string(), add()), any_refusal()]
       } else {
         vec![("Ok".to_string(), add())]
       }
@@ -587,7 +803,7 @@ fn predict(abs: &Abs, op: &Op) -> Pred {
       None => vec![("None".to_string(), same())],
     },
   };
-  Pred { allowed: allowed.into_iter().map(|(f, a)| (f, a.sorted())).collect(), accept_key, ambiguous }
+  Pred { allowed: allowed.into_iter().map(|(f, a)| (f, a.sorted())).collect(), accept_key, ambiguous, open }
 }
 /// Coarse class of a result flag.
 fn class(flag: &str) -> &'static str {
@@ -647,15 +863,15 @@ fn apply(doc: &mut CoreDocument, op: &Op, alt: bool) -> Result<String, vx::Panic
       None => "None".to_string(),
     }),
     Op::Attach { q, rel } => {
-      if q < NID && !alt {
-        guard(|| doc.attach_method_relationship(&URLS[q as usize], rel_of(rel))).map(boolean)
+      if let (Some(id), false) = (q_id(q), alt) {
+        guard(|| doc.attach_method_relationship(&URLS[id as usize], rel_of(rel))).map(boolean)
       } else {
         guard(|| doc.attach_method_relationship(QUERIES[q as usize].as_str(), rel_of(rel))).map(boolean)
       }
     }
     Op::Detach { q, rel } => {
-      if q < NID && !alt {
-        guard(|| doc.detach_method_relationship(&URLS[q as usize], rel_of(rel))).map(boolean)
+      if let (Some(id), false) = (q_id(q), alt) {
+        guard(|| doc.detach_method_relationship(&URLS[id as usize], rel_of(rel))).map(boolean)
       } else {
         guard(|| doc.detach_method_relationship(QUERIES[q as usize].as_str(), rel_of(rel))).map(boolean)
       }
@@ -715,7 +931,7 @@ struct St {
   fp: String,
   /// number of ops so far; part of the fingerprint only in depth-capped runs (else 0)
   depth: u32,
-  init: u8,
+  start: Start,
   hist: Vec<Op>,
 }
 impl PartialEq for St {
@@ -731,14 +947,46 @@ impl Hash for St {
   }
 }
 
+/// A concurrent set of (document JSON, small tag) pairs, kept as 128-bit hashes (fixed-key SipHash).
+struct FpSet {
+  shards: Vec<Mutex<std::collections::HashSet<u128>>>,
+}
+impl FpSet {
+  fn new() -> Arc<FpSet> {
+    Arc::new(FpSet { shards: (0..64).map(|_| Mutex::new(std::collections::HashSet::new())).collect() })
+  }
+  /// true = newly inserted
+  fn insert(&self, fp: &str, tag: u32) -> bool {
+    let h = |salt: u8| {
+      let mut h = std::collections::hash_map::DefaultHasher::new();
+      (salt, tag, fp).hash(&mut h);
+      h.finish()
+    };
+    let k = ((h(0) as u128) << 64) | h(1) as u128;
+    self.shards[(k % 64) as usize].lock().unwrap().insert(k)
+  }
+  fn len(&self) -> u64 {
+    self.shards.iter().map(|s| s.lock().unwrap().len() as u64).sum()
+  }
+}
+
 struct Sink<'a> {
   col: &'a Collector,
   tally: &'a Tally,
   /// query codes and scopes of oracle (vii) (a replay uses all of them)
   queries: &'a [u8],
   scopes: &'a [Option<u8>],
+  /// Documents (by exact JSON) whose resolution oracle (vii) has been evaluated in this run. (vii) is a function of the
+  /// document alone and every document that reaches it has passed (iv) (it equals `from_json` of that JSON), so one
+  /// evaluation per document is all there is to evaluate. None = evaluate always (replay).
+  judged: Option<&'a FpSet>,
 }
-const ALL_QUERIES: [u8; 12] = [0, 1, 2, 3, 4, 5, 6, 7, 8, 9, 10, 11];
+impl Sink<'_> {
+  fn first_visit(&self, fp: &str) -> bool {
+    self.judged.map(|j| j.insert(fp, 0)).unwrap_or(true)
+  }
+}
+const ALL_QUERIES: [u8; NQ as usize] = [0, 1, 2, 3, 4, 5, 6, 7, 8, 9, 10, 11, 12, 13, 14, 15, 16, 17, 18];
 const ALL_SCOPES: [Option<u8>; 7] = [None, Some(0), Some(1), Some(2), Some(3), Some(4), Some(5)];
 
 fn kind(b: &Option<Body>) -> &'static str {
@@ -823,6 +1071,10 @@ fn judge(sink: &Sink, entry: &str, q: u8, sc: Option<&'static str>, exp: &Expect
   if exp.allowed.contains(real) {
     return;
   }
+  if is_bare_did_fragment(q) && real.is_none() {
+    sink.col.violation(KEY_BARE_DID, &format!("{entry}({:?}) found nothing; model predicts {:?}; entries {abs:?}", QUERIES[q as usize], exp.allowed), case);
+    return;
+  }
   let exact = exp.allowed.len() == 1;
   let exp_kind = if exact { kind(&exp.allowed[0]) } else { "one-of-the-denoted" };
   let got_kind = match real {
@@ -873,14 +1125,19 @@ fn check_queries(sink: &Sink, doc: &CoreDocument, abs: &Abs, case: &Case) {
   for &sc in scopes {
     match guard(|| doc.methods(sc.map(scope_of)).into_iter().map(|m| (id_of(m.id()), body_of(m))).collect::<Vec<(u8, Body)>>()) {
       Ok(real) => {
+        // `methods` promises no order: compared as multisets; whether the order is the document's is only recorded
         let expected = abs.methods(sc);
-        *counts.entry("methods(scope)").or_insert(0) += 1;
-        if real != expected {
+        if real == expected {
+          *counts.entry("methods(scope)").or_insert(0) += 1;
+        } else {
           let (mut a, mut b) = (real.clone(), expected.clone());
           a.sort();
           b.sort();
-          let clause = if a == b { "order-differs-from-document-order" } else { "differs-from-model" };
-          sink.col.violation(&format!("CoreDocument::methods|scope={}|{clause}", scope_kind(sc)), &format!("scope {sc:?}: model {expected:?}, got {real:?}"), case);
+          if a == b {
+            *counts.entry("methods(scope):other-order").or_insert(0) += 1;
+          } else {
+            sink.col.violation(&format!("CoreDocument::methods|scope={}|differs-from-model", scope_kind(sc)), &format!("scope {sc:?}: model {expected:?}, got {real:?}"), case);
+          }
         }
       }
       Err(p) => sink.col.violation(&format!("CoreDocument::methods|{}", p.key()), &p.msg, case),
@@ -891,7 +1148,8 @@ fn check_queries(sink: &Sink, doc: &CoreDocument, abs: &Abs, case: &Case) {
       "unique" => "query:judged-exactly(unique id)",
       "first-match" => "query:judged-exactly(first match among several ids with the fragment)",
       "ambiguous-dangling-first" => "query:judged-as-one-of-the-denoted(first match is a dangling reference)",
-      _ => "query:methods(scope) judged in document order",
+      "methods(scope):other-order" => "query:methods(scope) judged as a multiset (entries in another order than the document's)",
+      _ => "query:methods(scope) judged as a multiset (entries in document order)",
     };
     sink.tally.add(label, v);
   }
@@ -959,14 +1217,41 @@ fn to_fp(doc: &CoreDocument) -> Result<String, String> {
   }
 }
 
-fn init_state(sink: &Sink, init: u8) -> Option<St> {
+/// Start documents the library must accept: plain documents and the shapes its own documentation mentions
+/// (`remove_method`: "a reference ... to a method contained in another DID document"). Start document 4 holds a
+/// reference to a method of the document's own DID that is not in the document: whether such a document is accepted
+/// is left open ("starting from any DID document the library accepts").
+fn must_accept(init: u8) -> bool {
+  init != 4
+}
+fn init_state(sink: &Sink, start: &Start) -> Option<St> {
   sink.col.eval1();
-  let case = Case::History { init, ops: vec![] };
-  let doc = match init_doc(init) {
-    Ok(d) => d,
-    Err(e) => {
-      // every start document is one the library is documented to accept
-      sink.col.violation("CoreDocument::construct|start-document-rejected", &format!("{}: {e}", INIT_NAMES[init as usize]), &case);
+  let case = start.case(&[]);
+  let built: Result<Result<CoreDocument, String>, vx::Panicked> = match start {
+    Start::Named(init) => Ok(init_doc(*init)),
+    Start::Spec(spec, false) => {
+      let js = spec_json(spec);
+      guard(|| CoreDocument::from_json(&js).map_err(|e| e.to_string()))
+    }
+    Start::Spec(spec, true) => guard(|| spec_build(spec).map_err(|e| e.to_string())),
+  };
+  let gate_label = |verdict: &str| match start {
+    Start::Named(init) => format!("start:{verdict}:{}", INIT_NAMES[*init as usize]),
+    Start::Spec(spec, builder) => format!("gate:{}:{verdict}:{}", if *builder { "DocumentBuilder" } else { "from_json" }, spec_class(spec)),
+  };
+  let doc = match built {
+    Ok(Ok(d)) => d,
+    Ok(Err(e)) => {
+      match start {
+        Start::Named(init) if must_accept(*init) => sink.col.violation("CoreDocument::construct|start-document-rejected", &format!("{}: {e}", INIT_NAMES[*init as usize]), &case),
+        // the gate sweep judges what is accepted; what is rejected is recorded
+        _ => {}
+      }
+      sink.tally.add(&gate_label("rejected"), 1);
+      return None;
+    }
+    Err(p) => {
+      sink.col.violation(&format!("CoreDocument::construct|{}", p.key()), &p.msg, &case);
       return None;
     }
   };
@@ -978,10 +1263,12 @@ fn init_state(sink: &Sink, init: u8) -> Option<St> {
     }
   };
   let abs = abstract_doc(&doc);
+  sink.tally.add(&gate_label("accepted"), 1);
   let wire = check_state(sink, "construct", &doc, &abs, &fp, &case)?;
-  check_queries(sink, &doc, &abs, &case);
-  sink.tally.add(&format!("start:{}", INIT_NAMES[init as usize]), 1);
-  Some(St { doc, wire, abs, fp, depth: 0, init, hist: vec![] })
+  if sink.first_visit(&fp) {
+    check_queries(sink, &doc, &abs, &case);
+  }
+  Some(St { doc, wire, abs, fp, depth: 0, start: start.clone(), hist: vec![] })
 }
 
 /// One transition: the operation on the real document + all oracles. `None` = violating successor (not expanded).
@@ -989,7 +1276,7 @@ fn step(sink: &Sink, s: &St, op: Op, count_depth: bool) -> Option<St> {
   sink.col.eval1();
   let mut hist = s.hist.clone();
   hist.push(op);
-  let mk_case = |hist: &Vec<Op>| Case::History { init: s.init, ops: hist.clone() };
+  let mk_case = |hist: &Vec<Op>| s.start.case(hist);
   let name = op.name();
   let pred = predict(&s.abs, &op);
 
@@ -1018,11 +1305,16 @@ fn step(sink: &Sink, s: &St, op: Op, count_depth: bool) -> Option<St> {
   };
   let abs = if same_value { s.abs.clone() } else { abstract_doc(&doc) };
   let abs_sorted = abs.sorted();
-  let label = format!("{name}:{}{}", if class(&flag) == "Some" { "Some" } else { flag.as_str() }, if pred.ambiguous { " [fragment denotes several ids]" } else { "" });
+  let label = format!(
+    "{name}:{}{}{}",
+    if class(&flag) == "Some" { "Some" } else { flag.as_str() },
+    if pred.ambiguous { " [fragment denotes several ids]" } else { "" },
+    pred.open.map(|w| format!(" [left open: {w}]")).unwrap_or_default()
+  );
   sink.tally.add(&label, 1);
 
   // (vi) lock-step model: flag and resulting entry sets
-  if !pred.allowed.iter().any(|(f, a)| *f == flag && *a == abs_sorted) {
+  if !pred.allowed.iter().any(|(f, a)| flag_fits(f, &flag) && *a == abs_sorted) {
     let case = mk_case(&hist);
     let classes: BTreeSet<&str> = pred.allowed.iter().map(|(f, _)| class(f)).collect();
     let reparses = matches!(guard(|| CoreDocument::from_json(&fp)), Ok(Ok(_)));
@@ -1034,7 +1326,10 @@ fn step(sink: &Sink, s: &St, op: Op, count_depth: bool) -> Option<St> {
       fp != s.fp,
       invariants(&abs).map(|(c, _)| c)
     );
-    let key = if pred.ambiguous {
+    let bare_did = matches!(op, Op::Attach { q, .. } | Op::Detach { q, .. } if is_bare_did_fragment(q));
+    let key = if bare_did && flag == "Err(MethodNotFound)" && fp == s.fp {
+      KEY_BARE_DID.to_string()
+    } else if pred.ambiguous {
       // the fragment denotes several ids: the outcome must be the one for (at least) one of them
       format!("CoreDocument::{name}|fragment-denotes-several-ids|outcome-fits-none-of-the-denoted-ids")
     } else if !classes.contains(class(&flag)) {
@@ -1042,7 +1337,7 @@ fn step(sink: &Sink, s: &St, op: Op, count_depth: bool) -> Option<St> {
         Some(k) if !is_refusal(&flag) => k.to_string(),
         _ => format!("CoreDocument::{name}|result|expected-{}-got-{}", classes.iter().cloned().collect::<Vec<_>>().join("/"), class(&flag)),
       }
-    } else if !pred.allowed.iter().any(|(f, _)| *f == flag) {
+    } else if !pred.allowed.iter().any(|(f, _)| flag_fits(f, &flag)) {
       format!("CoreDocument::{name}|result-detail|{}-names-the-wrong-{}", class(&flag), if class(&flag) == "Err" { "condition" } else { "entry" })
     } else {
       format!("CoreDocument::{name}|resulting-entries-differ-from-model|after-{}", class(&flag))
@@ -1074,7 +1369,9 @@ fn step(sink: &Sink, s: &St, op: Op, count_depth: bool) -> Option<St> {
         (Op::RemoveMethod { .. }, Some((_, rest))) if flag.starts_with("Some(") => format!("Some(_,{rest}"),
         _ => flag.clone(),
       };
-      if f2 != live {
+      // which error a refusal carries is judged by (vi) where the documentation names it, not here
+      let coarse = |f: &str| if f.starts_with("Err(") { "Err".to_string() } else { f.to_string() };
+      if coarse(&f2) != coarse(&live) {
         sink.col.violation(&format!("CoreDocument::{name}|wire-differential|result-differs"), &format!("{} on {}: live {flag}, re-read {f2}", op.describe(), s.fp), &case_lazy);
         return None;
       }
@@ -1092,11 +1389,14 @@ fn step(sink: &Sink, s: &St, op: Op, count_depth: bool) -> Option<St> {
   if identical {
     sink.tally.add("state-oracles:inherited(document identical to pre-state)", 1);
   } else {
-    check_queries(sink, &doc, &abs, &case_lazy);
-    sink.tally.add("state-oracles:evaluated(document changed)", 1);
-    sink.col.sample(&case_lazy);
+    sink.tally.add("state-oracles:(i)-(iv) evaluated (document changed)", 1);
+    // which transition into a document is the one that evaluates (vii) depends on worker timing: not tallied here
+    if sink.first_visit(&fp) {
+      check_queries(sink, &doc, &abs, &case_lazy);
+      sink.col.sample(&case_lazy);
+    }
   }
-  Some(St { doc, wire, abs, fp, depth: if count_depth { s.depth + 1 } else { 0 }, init: s.init, hist })
+  Some(St { doc, wire, abs, fp, depth: if count_depth { s.depth + 1 } else { 0 }, start: s.start.clone(), hist })
 }
 
 // ------------------------------------------------------------------ stateright model
@@ -1123,9 +1423,9 @@ fn universe(inits: &[u8], mids: &[u8], bodies: &[(u8, u8)], scopes: &[u8], rels:
     ops.push(Op::RemoveMethod { id });
   }
   let frags: BTreeSet<u8> = mids.iter().map(|i| frag_of(*i)).collect();
-  let mut qs: Vec<u8> = mids.to_vec();
-  qs.extend(frags.iter().map(|f| NID + f));
-  qs.extend(frags.iter().map(|f| NID + 3 + f));
+  let mut qs: Vec<u8> = mids.iter().map(|i| q_of_id(*i)).collect();
+  qs.extend(frags.iter().map(|f| q_code(Q::Hash(*f))));
+  qs.extend(frags.iter().map(|f| q_code(Q::Bare(*f))));
   for &q in &qs {
     for &rel in rels {
       ops.push(Op::Attach { q, rel });
@@ -1153,9 +1453,9 @@ fn universe(inits: &[u8], mids: &[u8], bodies: &[(u8, u8)], scopes: &[u8], rels:
     }
   }
   let fr: BTreeSet<u8> = ids.iter().map(|i| frag_of(*i)).collect();
-  let mut queries: Vec<u8> = ids.iter().cloned().collect();
-  queries.extend(fr.iter().map(|f| NID + f));
-  queries.extend(fr.iter().map(|f| NID + 3 + f));
+  let mut queries: Vec<u8> = ids.iter().map(|i| q_of_id(*i)).collect();
+  queries.extend(fr.iter().map(|f| q_code(Q::Hash(*f))));
+  queries.extend(fr.iter().map(|f| q_code(Q::Bare(*f))));
   let mut qscopes: Vec<Option<u8>> = vec![None];
   qscopes.extend(used.iter().map(|s| Some(*s)));
   Uni { inits: inits.to_vec(), ops, count_depth, queries, qscopes }
@@ -1165,19 +1465,25 @@ struct DocModel {
   uni: Uni,
   col: Arc<Collector>,
   tally: Arc<Tally>,
+  judged: Arc<FpSet>,
+}
+impl DocModel {
+  fn sink(&self) -> Sink<'_> {
+    Sink { col: &self.col, tally: &self.tally, queries: &self.uni.queries, scopes: &self.uni.qscopes, judged: Some(&self.judged) }
+  }
 }
 impl Model for DocModel {
   type State = St;
   type Action = Op;
   fn init_states(&self) -> Vec<St> {
-    let sink = Sink { col: &self.col, tally: &self.tally, queries: &self.uni.queries, scopes: &self.uni.qscopes };
-    self.uni.inits.iter().filter_map(|i| init_state(&sink, *i)).collect()
+    let sink = self.sink();
+    self.uni.inits.iter().filter_map(|i| init_state(&sink, &Start::Named(*i))).collect()
   }
   fn actions(&self, _s: &St, out: &mut Vec<Op>) {
     out.extend(self.uni.ops.iter().cloned());
   }
   fn next_state(&self, s: &St, op: Op) -> Option<St> {
-    step(&Sink { col: &self.col, tally: &self.tally, queries: &self.uni.queries, scopes: &self.uni.qscopes }, s, op, self.uni.count_depth)
+    step(&self.sink(), s, op, self.uni.count_depth)
   }
   fn properties(&self) -> Vec<Property<Self>> {
     vec![Property::always("violations are collected on the side", |_, _| true)]
@@ -1187,11 +1493,14 @@ impl Model for DocModel {
 // ------------------------------------------------------------------ eval / generate
 fn eval(ctx: &Ctx, case: &Case) {
   ctx.eval1();
-  let Case::History { init, ops } = case;
+  let (start, ops) = match case {
+    Case::History { init, ops } => (Start::Named(*init), ops),
+    Case::Gate { spec, builder, ops } => (Start::Spec(Arc::new(spec.clone()), *builder), ops),
+  };
   let col = Collector::new();
   let tally = Tally::new();
-  let sink = Sink { col: &col, tally: &tally, queries: &ALL_QUERIES, scopes: &ALL_SCOPES };
-  if let Some(mut st) = init_state(&sink, *init) {
+  let sink = Sink { col: &col, tally: &tally, queries: &ALL_QUERIES, scopes: &ALL_SCOPES, judged: None };
+  if let Some(mut st) = init_state(&sink, &start) {
     for op in ops {
       match step(&sink, &st, *op, false) {
         Some(n) => st = n,
@@ -1203,15 +1512,31 @@ fn eval(ctx: &Ctx, case: &Case) {
   ctx.outcomes_merge(&tally.total());
 }
 
+/// CPU seconds used by the process so far (stderr diagnostics only: on a loaded machine wall time says little).
+fn cpu_s() -> f64 {
+  let mut ru: libc::rusage = unsafe { std::mem::zeroed() };
+  if unsafe { libc::getrusage(libc::RUSAGE_SELF, &mut ru) } != 0 {
+    return 0.0;
+  }
+  ru.ru_utime.tv_sec as f64 + ru.ru_utime.tv_usec as f64 / 1e6 + ru.ru_stime.tv_sec as f64 + ru.ru_stime.tv_usec as f64 / 1e6
+}
+
 fn run_part(ctx: &Ctx, part: &str, tag: u8, uni: Uni, depth: Option<usize>) {
+  let (cpu0, wall0) = (cpu_s(), ctx.elapsed_s());
   let tallies: Mutex<Vec<Arc<Tally>>> = Mutex::new(Vec::new());
+  let judged_sets: Mutex<Vec<Arc<FpSet>>> = Mutex::new(Vec::new());
   let n_ops = uni.ops.len();
   ctx.bound(&format!("{part}: queries x scopes judged per changed state"), json!({"queries": uni.queries.iter().map(|q| QUERIES[*q as usize].clone()).collect::<Vec<_>>(), "scopes": uni.qscopes.iter().map(|s| s.map(|s| SCOPE_NAMES[s as usize]).unwrap_or("None")).collect::<Vec<_>>()}));
   let st = vx::sr::run(ctx, part, depth, |col| {
     let tally = Tally::new();
     tallies.lock().unwrap().push(tally.clone());
-    DocModel { uni: uni.clone(), col, tally }
+    let judged = FpSet::new();
+    judged_sets.lock().unwrap().push(judged.clone());
+    DocModel { uni: uni.clone(), col, tally, judged }
   });
+  let js = judged_sets.into_inner().unwrap();
+  ctx.require(js[0].len() == js[1].len(), &format!("{part}: number of distinct documents judged by (vii) differs between the multi-thread and the 1-thread run"));
+  ctx.outcome_n("state-oracles:(vii) evaluated (once per distinct document of a part)", js[0].len());
   let ts = tallies.into_inner().unwrap();
   // the first model is the 16-thread run whose collector is drained into the context
   let a = ts[0].total();
@@ -1222,12 +1547,128 @@ fn run_part(ctx: &Ctx, part: &str, tag: u8, uni: Uni, depth: Option<usize>) {
     ctx.distinct(&(tag, i));
   }
   ctx.bound(&format!("{part}: operations per state"), n_ops);
+  eprintln!("[C04] cost of part {}: cpu {:.1} s (two runs), wall {:.1} s", part.split(':').next().unwrap_or(part), cpu_s() - cpu0, ctx.elapsed_s() - wall0);
+}
+
+// ------------------------------------------------------------------ gate sweep
+/// Document number `n` of the sweep. Per method id (in the order of `gids`, reversed if the last digit says so): in
+/// verificationMethod {absent, body 0, body 0 and body 1 under the one id}; in each relationship of `grels` {absent,
+/// reference, embedded body 0, embedded body 0 followed by a reference}; every subset of `sids` as services.
+fn gate_spec(mut n: u64, gids: &[u8], grels: &[u8], sids: &[u8]) -> Spec {
+  let mut digit = |base: u64| {
+    let d = n % base;
+    n /= base;
+    d
+  };
+  let mut spec = Spec::default();
+  let mut per_id: Vec<(u8, u64, Vec<u64>)> = gids.iter().map(|id| (*id, digit(3), grels.iter().map(|_| digit(4)).collect())).collect();
+  let services: Vec<u8> = sids.iter().filter(|_| digit(2) == 1).cloned().collect();
+  if gids.len() > 1 && digit(2) == 1 {
+    per_id.reverse();
+  }
+  for (id, g, es) in per_id {
+    if g >= 1 {
+      spec.general.push((id, 0));
+    }
+    if g == 2 {
+      spec.general.push((id, 1));
+    }
+    for (r, e) in grels.iter().zip(es) {
+      let l = &mut spec.rels[(*r - 1) as usize];
+      if e >= 2 {
+        l.push(SpecEnt::Embed(id, 0));
+      }
+      if e == 1 || e == 3 {
+        l.push(SpecEnt::Refer(id));
+      }
+    }
+  }
+  spec.services = services;
+  spec
+}
+fn gate_count(gids: &[u8], grels: &[u8], sids: &[u8]) -> u64 {
+  (3 * 4u64.pow(grels.len() as u32)).pow(gids.len() as u32) * 2u64.pow(sids.len() as u32) * if gids.len() > 1 { 2 } else { 1 }
+}
+
+/// Every operation of `ops` on `st`, on every changed successor again, `depth_left` deep. A document already expanded
+/// with the same remaining depth is not expanded again (its subtree is a function of the document); a successor equal
+/// to its pre-state is not expanded (its subtree is the pre-state's).
+fn expand(sink: &Sink, expanded: &FpSet, transitions: &std::sync::atomic::AtomicU64, st: &St, ops: &[Op], depth_left: u32) {
+  if depth_left == 0 || !expanded.insert(&st.fp, depth_left) {
+    return;
+  }
+  transitions.fetch_add(ops.len() as u64, Ordering::Relaxed);
+  for op in ops {
+    if let Some(n) = step(sink, st, *op, false) {
+      if n.fp != st.fp {
+        expand(sink, expanded, transitions, &n, ops, depth_left - 1);
+      }
+    }
+  }
+}
+
+/// The constructor / deserialisation gate: every document of the sweep is offered to `from_json` and to
+/// `DocumentBuilder`; an accepted one must satisfy (i)-(iv) and (vii) and is the start of every operation sequence of
+/// length <= `depth` (oracles (i)-(viii) on every transition). Plain exhaustive enumeration on all cores (no second run).
+fn run_gate(ctx: &Ctx, part: &str, tag: u8, gids: &[u8], grels: &[u8], sids: &[u8], depth: u32) {
+  let (cpu0, wall0) = (cpu_s(), ctx.elapsed_s());
+  let mut scopes = vec![0u8];
+  scopes.extend_from_slice(grels);
+  let mut uni = universe(&[], gids, &[], &scopes, grels, sids, false);
+  // bodies 0 and 1 occur in the documents; queries: every id of the sweep and of the operations
+  uni.ops.retain(|op| !matches!(op, Op::InsertMethod { variant, .. } if *variant != 0));
+  let total = gate_count(gids, grels, sids);
+  let col = Collector::new();
+  let tally = Tally::new();
+  let judged = FpSet::new();
+  let expanded = FpSet::new();
+  let transitions = std::sync::atomic::AtomicU64::new(0);
+  let accepted = std::sync::atomic::AtomicU64::new(0);
+  (0..total).into_par_iter().for_each(|n| {
+    let spec = Arc::new(gate_spec(n, gids, grels, sids));
+    let sink = Sink { col: &col, tally: &tally, queries: &uni.queries, scopes: &uni.qscopes, judged: Some(&judged) };
+    for builder in [false, true] {
+      let start = Start::Spec(spec.clone(), builder);
+      if let Some(st) = init_state(&sink, &start) {
+        accepted.fetch_add(1, Ordering::Relaxed);
+        if n % 97 == 0 {
+          col.sample(&start.case(&[]));
+        }
+        expand(&sink, &expanded, &transitions, &st, &uni.ops, depth);
+      }
+    }
+  });
+  let hist = tally.total();
+  let sum = |needle: &str| hist.iter().filter(|(k, _)| k.starts_with("gate:") && k.contains(needle)).map(|(_, v)| *v).sum::<u64>();
+  ctx.require(sum(":accepted:") > 0 && sum(":rejected:") > 0, &format!("{part}: the sweep must contain accepted and rejected documents"));
+  ctx.require(sum(":accepted:") + sum(":rejected:") == 2 * total, &format!("{part}: every document of the sweep is offered to both constructors"));
+  col.drain_into(ctx, part);
+  ctx.outcomes_merge(&hist);
+  let unique = judged.len();
+  ctx.outcome_n("state-oracles:(vii) evaluated (once per distinct document of a part)", unique);
+  let t = transitions.load(Ordering::Relaxed);
+  ctx.add_states(unique);
+  ctx.add_transitions(t + 2 * total);
+  ctx.add_traces(t + 2 * total);
+  ctx.add_evals(col.oracle_evals.load(Ordering::Relaxed));
+  for i in 0..unique {
+    ctx.distinct(&(tag, i));
+  }
+  ctx.bound(&format!("{part}: operations per accepted document and depth"), json!({"operations": uni.ops.len(), "depth": depth}));
+  ctx.part(
+    part,
+    json!({"engine": "exhaustive product enumeration + depth-bounded expansion", "documents_offered_to_each_constructor": total,
+      "accepted(from_json+DocumentBuilder)": sum(":accepted:"), "rejected(from_json+DocumentBuilder)": sum(":rejected:"),
+      "unique_documents_judged": unique, "documents_expanded(by remaining depth)": expanded.len(), "transitions": t, "depth": depth}),
+  );
+  eprintln!("[C04] cost of part {}: cpu {:.1} s (all cores), wall {:.1} s", part.split(':').next().unwrap_or(part), cpu_s() - cpu0, ctx.elapsed_s() - wall0);
 }
 
 fn generate(ctx: &Ctx) {
-  ctx.rule("stateright BFS over histories of checked CoreDocument mutations executed on the real document; state fingerprint = exact canonical JSON (entry order kept); every operation of the part's alphabet is applied to every reachable document (closure = frontier emptied) and oracles (i)-(viii) run on every transition; violating successors are reported and not expanded. distinct_nontrivial = unique reachable documents (by exact JSON) over all parts");
+  ctx.rule("stateright BFS over histories of checked CoreDocument mutations executed on the real document; state fingerprint = exact canonical JSON (entry order kept); every operation of the part's alphabet is applied to every reachable document (closure = frontier emptied) and oracles (i)-(viii) run on every transition; violating successors are reported and not expanded. Gate sweep parts: the complete product alphabet of small documents (valid and invalid) through both constructors, every accepted document expanded by every operation sequence up to the stated depth (a document is expanded once per remaining depth). distinct_nontrivial = unique reachable documents (by exact JSON) over all parts");
   ctx.assume("serde_json is a faithful JSON codec; CoreDocument's public accessors (verification_method(), authentication(), ..., service()) expose the stored entries; PartialEq of CoreDocument/VerificationMethod/Service is structural");
-  ctx.assume("resolution queries (resolve_method, resolve_method_mut, resolve_service) are judged against an exact first-match model built from the documented orders (verification_relationships(): authentication, assertionMethod, keyAgreement, capabilityDelegation, capabilityInvocation; entry order inside each set; then verificationMethod order); the only sub-case judged as 'behaves as for one of the denoted ids' is a fragment denoting several ids whose first matching entry is a reference to a method that is not in the document (the docs do not say whether the search stops there); attach/detach by a fragment denoting several ids are judged 'as for one of the denoted ids'; a method/service insertion whose id is held only by a dangling reference is left open for scope VerificationMethod / services");
+  ctx.assume("resolution queries (resolve_method, resolve_method_mut, resolve_service) are judged against an exact first-match model built from the documented orders (verification_relationships(): authentication, assertionMethod, keyAgreement, capabilityDelegation, capabilityInvocation; entry order inside each set; then verificationMethod order); the only sub-case judged as 'behaves as for one of the denoted ids' is a fragment denoting several ids whose first matching entry is a reference to a method that is not in the document (the docs do not say whether the search stops there); methods(scope) is compared as a multiset");
+  ctx.assume("left open (executed, recorded in the histogram, both outcomes allowed provided a refusal leaves the document unchanged and an acceptance adds exactly the entry): attach/detach by a fragment denoting several ids may behave as for any one of the denoted ids or refuse; insert_method (scope VerificationMethod) / insert_service of an id held only by a reference without its method; insert_method of a free id whose fragment is carried by an entry with another id (the documentation of insert_method speaks of 'the same fragment', the code compares ids); the error variant of refusals for which the documentation names none; whether start document 4 (reference to an absent method of the document's own DID) is accepted; what the constructors do with gate-sweep documents (only: accepted => (i)-(iv),(vii) hold)");
   // start documents alone (oracles at depth 0)
   for init in 0..INIT_NAMES.len() as u8 {
     let c = Case::History { init, ops: vec![] };
@@ -1246,9 +1687,14 @@ fn generate(ctx: &Ctx) {
     //     custom property (its successors are cut while the serde defect of such methods exists)
     run_part(ctx, "A closure: 3 method ids, 2 relationships, 2 services", 1, universe(&[0, 1, 2, 3, 5], &[A_K1, A_K2, B_K1], &[(A_K1, 2)], &two, &[1, 2], &[A_S1, A_K1], false), None);
     // (B) "same id, different body" + the rich deserialised start document
-    run_part(ctx, "B closure: 2 method ids with 2 bodies each, 2 relationships, 1 service, rich start document", 2, universe(&[4], &[A_K1, A_K2], &[(A_K1, 1), (A_K2, 1)], &two, &[1, 2], &[A_K1], false), None);
+    run_part(ctx, "B closure: 2 method ids with 2 bodies each, 2 relationships, 1 service, rich start document", 2, universe(&[4, 0], &[A_K1, A_K2], &[(A_K1, 1), (A_K2, 1)], &two, &[1, 2], &[A_K1], false), None);
     // (C) all six scopes, depth-capped
     run_part(ctx, "C depth 4: 3 method ids, all six scopes, 1 service", 3, universe(&[0, 2], &[A_K1, B_K1, B_K2], &[], &all_scopes, &all_rels, &[A_K1], true), Some(5));
+    // (D) two DIDs one of which is a proper prefix of the other, the same fragment under both, methods and services
+    run_part(ctx, "D closure: ids did:ex:a#k1 / did:ex:ab#k1 / did:ex:a#did-k as methods and services, 2 scopes, 1 relationship", 6, universe(&[0], &[A_K1, AB_K1, A_DID], &[(AB_K1, 1)], &[0, 1], &[1], &[A_K1, AB_K1, A_DID], false), None);
+    // (G) the constructor gate
+    run_gate(ctx, "G gate sweep: 3 method ids x {verificationMethod, 2 relationships}, 2 services; accepted documents expanded to depth 2", 7, &[A_K1, B_K1, A_K2], &[1, 2], &[A_K1, B_K1], 2);
+    run_gate(ctx, "G5 gate sweep: 1 method id x {verificationMethod, all five relationships}, 1 service; accepted documents expanded to depth 2", 10, &[A_K1], &all_rels, &[A_K1], 2);
   } else {
     // (A) 3 method ids x 3 relationships (insertion into 4 scopes) x 1 service to closure (body 0 only: the body with a
     //     custom property is covered by A2 and A4; with it this part alone takes > 7 min)
@@ -1257,8 +1703,16 @@ fn generate(ctx: &Ctx) {
     run_part(ctx, "A2 closure: 3 method ids, 2 relationships, 2 services", 4, universe(&[0, 1, 2, 3, 5], &[A_K1, A_K2, B_K1], &[(A_K1, 2)], &two, &[1, 2], &[A_S1, A_K1], false), None);
     // (A4) 4 method ids (two DIDs x two fragments), insertion into 3 scopes, references in authentication, 2 services
     run_part(ctx, "A4 closure: 4 method ids, insertion in 3 scopes, references in 1 relationship, 2 services", 5, universe(&[0, 1, 2, 3, 5], &[A_K1, A_K2, B_K1, B_K2], &[(A_K1, 2)], &two, &[1], &[A_S1, A_K1], false), None);
+    // (A5) two DIDs x two fragments with references in two relationships (two fragments ambiguous at once)
+    run_part(ctx, "A5 closure: 4 method ids, insertion in 3 scopes, references in 2 relationships, 1 service", 12, universe(&[0, 3], &[A_K1, A_K2, B_K1, B_K2], &[], &two, &[1, 2], &[A_K1], false), None);
     run_part(ctx, "B closure: 3 method ids with 2 bodies each, 2 relationships, 1 service, rich start document", 2, universe(&[4, 0], &[A_K1, A_K2, B_K1], &[(A_K1, 1), (A_K2, 1), (B_K1, 1)], &two, &[1, 2], &[A_K1], false), None);
     run_part(ctx, "C depth 4: 4 method ids, all six scopes, 2 services", 3, universe(&[0, 1, 2, 3, 4], &[A_K1, A_K2, B_K1, B_K2], &[(A_K1, 1)], &all_scopes, &all_rels, &[A_S1, A_K1], true), Some(5));
+    run_part(ctx, "D closure: ids did:ex:a#k1 / did:ex:ab#k1 / did:ex:a#did-k as methods (did:ex:ab#k1 with 2 bodies) and services, 3 scopes, 2 relationships", 6, universe(&[0], &[A_K1, AB_K1, A_DID], &[(AB_K1, 1)], &two, &[1, 2], &[A_K1, AB_K1, A_DID], false), None);
+    run_gate(ctx, "G gate sweep: 3 method ids x {verificationMethod, 2 relationships}, 2 services; accepted documents expanded to depth 3", 7, &[A_K1, B_K1, A_K2], &[1, 2], &[A_K1, B_K1], 3);
+    run_gate(ctx, "G3 gate sweep: 2 method ids x {verificationMethod, 3 relationships}, 2 services; accepted documents expanded to depth 3", 8, &[A_K1, B_K1], &[1, 2, 5], &[A_K1, B_K1], 3);
+    run_gate(ctx, "G3b gate sweep: 2 method ids x {verificationMethod, the other 3 relationships}, 2 services; accepted documents expanded to depth 3", 11, &[A_K1, B_K1], &[3, 4, 5], &[A_K1, B_K1], 3);
+    run_gate(ctx, "G5 gate sweep: 1 method id x {verificationMethod, all five relationships}, 1 service; accepted documents expanded to depth 3", 10, &[A_K1], &all_rels, &[A_K1], 3);
+    run_gate(ctx, "G4 gate sweep: 4 method ids x {verificationMethod, 1 relationship}, 2 services; accepted documents expanded to depth 2", 9, &[A_K1, A_K2, B_K1, B_K2], &[1], &[A_K1, A_S1], 2);
   }
   ctx.bound("ids", (0..NID).map(id_str).collect::<Vec<_>>());
   ctx.bound("queries judged at every state", QUERIES.clone());
